@@ -13,7 +13,21 @@ PROP = {
                    "alignment inside buckets, memcpy relocation, short-hash bytes (C12), SSE2 in-bucket search of Open8, float capacity formulas "
                    "(modelled as exact rational floor; compared at every growth)."),
     "modules": ["Momo.Props.C01"],
-    "theorems": [],
+    "theorems": [
+        "Momo.HT.mkSpec_ok",
+        "Momo.HT.mkSpec_ok_unlimP",
+        "Momo.HT.C01_find_iff",
+        "Momo.HT.C01_find_value",
+        "Momo.HT.C01_count_traverse",
+        "Momo.HT.C01_insert_succeeds",
+        "Momo.HT.insert_refines_partial",
+        "Momo.HT.step_refines_partial",
+        "Momo.HT.run_refines_partial",
+        "Momo.HT.C01_history_partial",
+        "Momo.HT.C01_copy_fits",
+        "Momo.HT.unrestricted_faults_counterexample",
+        "Momo.HT.C01_history_full_false",
+    ],
     "harnesses": [
         {"name": "c01_chain", "src": "c01_hash.cpp", "flags": ["-DVF_PART=0"]},
         {"name": "c01_old", "src": "c01_hash.cpp", "flags": ["-DVF_PART=1"]},
